@@ -245,6 +245,121 @@ fn seeded_scenario(src: &str, idents: &[&str], masks: Vec<u64>) -> Vec<Sc06> {
         .collect()
 }
 
+pub const BINARY_OPS: [&str; 38] = [
+    "+", "-", "*", "/", "//", "%", "**", "&", "|", "^", "<<", ">>", "&&", "||", "^^", "==", "!=", "<", "<=", ">", ">=", "#=", "=", "<>", "..", ">..", "..<", ">..<", "~", "~>", "<~", "~#",
+    ".", "?>", "!>", "|>", ",", " ",
+];
+pub const PREFIX_OPS: [&str; 8] = ["++", "--", "!", "!!", "??", "#", "_.", "^~ "];
+pub const SUFFIX_OPS: [&str; 3] = ["~~", "._", ".|"];
+
+fn join_binary(l: &str, op: &str, r: &str) -> String {
+    match op {
+        "." => format!("{}.{}", l, r),
+        " " => format!("{} {}", l, r),
+        "," => format!("{}, {}", l, r),
+        _ => format!("{} {} {}", l, op, r),
+    }
+}
+
+/// Syntactic shapes (read off the real parse tree) that two recorded findings are about; used only by the
+/// known-findings matcher, which needs to name a family of inputs precisely:
+/// `else-without-conditional` = an else `|>` whose left operand is not a conditional (nor another else);
+/// `else-chain-without-default` = an else-chain whose last link is itself a conditional;
+/// `reapply-under-operator` = a `^~` that is not an arm of a conditional / else-chain, an operand of `&&` /
+/// `||`, or a whole (sub-)expression, so that operands of enclosing operators are pending when it jumps back.
+pub fn shape_tags(src: &str) -> String {
+    use garnish_lang_compiler::parse::Definition as Def;
+    let Ok(parsed) = crate::world::front_end(src) else { return String::new() };
+    let nodes = parsed.get_nodes();
+    let def = |i: usize| nodes.get(i).map(|n| n.get_definition());
+    let mut else_bad = false;
+    let mut open_chain = false;
+    let mut reapply_bad = false;
+    for n in nodes.iter() {
+        match n.get_definition() {
+            Def::ElseJump => {
+                let ok = matches!(n.get_left().and_then(def), Some(Def::JumpIfTrue) | Some(Def::JumpIfFalse) | Some(Def::ElseJump));
+                if !ok {
+                    else_bad = true;
+                }
+                // the chain's last link is conditional (no default) unless a parent else continues the chain
+                let last_is_conditional = matches!(n.get_right().and_then(def), Some(Def::JumpIfTrue) | Some(Def::JumpIfFalse));
+                let continued = n.get_parent().map(|pi| def(pi) == Some(Def::ElseJump) && nodes[pi].get_left().and_then(|l| nodes.get(l)).map(|ln| std::ptr::eq(ln, n)).unwrap_or(false)).unwrap_or(false);
+                if last_is_conditional && !continued {
+                    open_chain = true;
+                }
+            }
+            Def::Reapply => {
+                let mut cur = n.get_parent();
+                while let Some(pi) = cur {
+                    match def(pi) {
+                        Some(Def::JumpIfTrue) | Some(Def::JumpIfFalse) | Some(Def::ElseJump) | Some(Def::And) | Some(Def::Or) | Some(Def::Group) | Some(Def::Subexpression) => {
+                            cur = nodes[pi].get_parent();
+                        }
+                        Some(Def::NestedExpression) | None => break,
+                        Some(_) => {
+                            reapply_bad = true;
+                            break;
+                        }
+                    }
+                }
+            }
+            _ => {}
+        }
+    }
+    format!(
+        "{}{}{}",
+        if else_bad { " shape:else-without-conditional" } else { "" },
+        if reapply_bad { " shape:reapply-under-operator" } else { "" },
+        if open_chain { " shape:else-chain-without-default" } else { "" }
+    )
+}
+
+/// every ordered pair of operators (binary, prefix, suffix, space list, comma list, conditional and apply
+/// forms) around distinct identifiers, at the top level and inside a called expression: the part of the
+/// C02 corpus that is small enough to be swept completely on every invocation
+pub fn operator_pairs() -> Vec<Sc06> {
+    let mut srcs: Vec<(String, usize)> = vec![];
+    for a in BINARY_OPS {
+        for b in BINARY_OPS {
+            srcs.push((join_binary(&join_binary("i1", a, "i2"), b, "i3"), 3));
+        }
+        for p in PREFIX_OPS {
+            srcs.push((join_binary(&format!("{}i1", p), a, "i2"), 2));
+            srcs.push((join_binary("i1", a, &format!("{}i2", p)), 2));
+        }
+        for q in SUFFIX_OPS {
+            srcs.push((join_binary(&format!("i1{}", q), a, "i2"), 2));
+            srcs.push((join_binary("i1", a, &format!("i2{}", q)), 2));
+        }
+    }
+    for p in PREFIX_OPS {
+        for q in SUFFIX_OPS {
+            srcs.push((format!("{}i1{}", p, q), 1));
+        }
+        for p2 in PREFIX_OPS {
+            srcs.push((format!("{}{}i1", p, p2), 1));
+        }
+    }
+    for q in SUFFIX_OPS {
+        for q2 in SUFFIX_OPS {
+            srcs.push((format!("i1{}{}", q, q2), 1));
+        }
+    }
+    let mut out = vec![];
+    for (src, k) in srcs {
+        let idents: Vec<String> = (1..=k).map(|i| format!("i{}", i)).collect();
+        let masks: Vec<u64> = (0..(1u64 << k)).collect();
+        for wrapped in [false, true] {
+            let text = if wrapped { format!("{{ {} }}~~", src) } else { src.clone() };
+            for basic in [false, true] {
+                out.push(Sc06 { basic, src: text.clone(), input: Val::Unit, idents: idents.clone(), masks: masks.clone(), max_steps: 300 });
+            }
+        }
+    }
+    out
+}
+
 impl Campaign for C06 {
     type Scenario = Sc06;
     fn prop(&self) -> &'static str {
@@ -262,6 +377,33 @@ impl Campaign for C06 {
 
     fn generate(&self, rng: &mut Rng, _tier: Tier, _index: u64) -> Sc06 {
         let basic = rng.chance(1, 2);
+        if rng.chance(1, 6) {
+            // operator triples around distinct identifiers (the pairs are swept completely as explicit scenarios):
+            // sampled from 38^3 combinations x optional prefix / suffix on each atom
+            let n = 4;
+            let mut atoms: Vec<String> = vec![];
+            for i in 1..=n {
+                let mut a = format!("i{}", i);
+                match rng.below(8) {
+                    0 => a = format!("{}{}", rng.pick(&PREFIX_OPS[..7]), a),
+                    1 => a = format!("{}{}", a, rng.pick(&SUFFIX_OPS)),
+                    _ => {}
+                }
+                atoms.push(a);
+            }
+            let mut src = atoms[0].clone();
+            for a in &atoms[1..] {
+                let op = *rng.pick(&BINARY_OPS);
+                src = join_binary(&src, op, a);
+            }
+            let src = match rng.below(3) {
+                0 => format!("{{ {} }}~~", src),
+                1 => format!("{{ {} }} <~ 5", src),
+                _ => src,
+            };
+            let idents: Vec<String> = (1..=n).map(|i| format!("i{}", i)).collect();
+            return Sc06 { basic, src, input: Val::Unit, idents, masks: (0..(1u64 << n)).collect(), max_steps: 300 };
+        }
         let cfg = cfg_for(rng);
         let keys = cfg.keys.clone();
         let mut g = Gen::new(rng, cfg);
@@ -345,11 +487,12 @@ impl Campaign for C06 {
         // side-effect block directly after a closing bracket: the parser drops the bracketed value
         v.extend(seeded_scenario("(5) [6]", &[], vec![0]));
         v.extend(seeded_scenario("{ (9 % 2) [i1] }~~", &["i1"], vec![0, 1]));
+        v.extend(operator_pairs());
         v
     }
 
     fn haystack(&self, sc: &Sc06) -> String {
-        format!("<<{}>>", sc.src)
+        format!("<<{}>>{}", sc.src, shape_tags(&sc.src))
     }
 
     fn rule(&self) -> String {
@@ -421,4 +564,23 @@ pub fn shrink_source(src: &str) -> Vec<String> {
     }
     out.retain(|c| c.len() < src.len() && !c.contains(";;"));
     out
+}
+
+/// developer tool: run the operator-pair matrix in-process and list every violating program
+pub fn dev_matrix() {
+    use crate::campaign::Campaign;
+    crate::world::install_panic_hook();
+    let mut tally: BTreeMap<String, Vec<String>> = BTreeMap::new();
+    for sc in operator_pairs() {
+        let o = C06.execute(&sc);
+        if let Some(v) = &o.violation {
+            tally.entry(v.invariant.clone()).or_default().push(format!("{} [{}]", sc.src, if sc.basic { "basic" } else { "simple" }));
+        }
+    }
+    for (k, v) in &tally {
+        println!("== {} ({})", k, v.len());
+        for s in v {
+            println!("   {}", s);
+        }
+    }
 }
